@@ -239,6 +239,12 @@ where
         self.inner.2.borrow().len_outbound() + self.inner.2.borrow().len_inbound()
     }
 
+    /// Number of edges created from this node. `iter()` yields these first;
+    /// the other endpoint lists the same edges after the ones it created.
+    pub(crate) fn created_count(&self) -> usize {
+        self.inner.2.borrow().len_outbound()
+    }
+
     /// Connects this node to another node. The connection is created in both
     /// directions. The connection is created with the given edge value and
     /// defaults to `()`. This function allows for creating multiple
